@@ -23,6 +23,7 @@ DRIVERS = {
     "remove-then-close-fd": ["add_reader f1", "settle", "remove_reader f1", "closefd f1", "add_reader f3", "ready f3", "settle", "close"],
     "re-add": ["add_reader f1", "remove_reader f1", "add_reader f1", "ready f1", "settle", "close"],
     "close-twice": ["add_reader f1", "settle", "close", "close"],
+    "remove-then-close-same-fd": ["add_reader f1", "settle", "remove_reader f1", "closefd f1", "settle", "close"],
 }
 
 
@@ -40,10 +41,13 @@ class Fd:
         return self.name
 
 
-def run(ch, driver, waker_capacity=2):
+def run(ch, driver, waker_capacity=2, sched_factory=None, program=None):
+    """sched_factory / program are used by the model-conformance part (checks/c40_model.py): an observing or
+    path-driven scheduler, and a loop-thread program that replaces the fixed driver."""
     import tornado.platform.asyncio as tpa
-    sched = Sched(ch, horizon=3000)
+    sched = sched_factory(ch) if sched_factory is not None else Sched(ch, horizon=3000)
     sched.register_main("loop")
+    box = {"st": None, "pre": set(tpa._selector_loops)}
     problems = []
     fds = {n: Fd(n, 100 + i) for i, n in enumerate(("f1", "f2", "f3"))}
     state = {"inflight": 0, "max_inflight": 0, "selects": 0}
@@ -172,9 +176,16 @@ def run(ch, driver, waker_capacity=2):
             if f.ready and f in regs and not f.closed:
                 problems.append(("lost-event", "%s: %s is registered and ready but was not dispatched (dispatched %d)"
                                  % (where, f.name, f.dispatched)))
+    if hasattr(sched, "bind"):
+        sched.bind(box=box, tpa=tpa, loop=loop, fds=fds, wbuf=wbuf, waker_r=waker_r)
     try:
-        st = tpa.SelectorThread(loop)
-        for op in DRIVERS[driver]:
+        if program is not None:
+            import types
+            program(types.SimpleNamespace(tpa=tpa, loop=loop, fds=fds, sched=sched, box=box, make_cb=make_cb))
+            st = box["st"]
+        else:
+            st = box["st"] = tpa.SelectorThread(loop)
+        for op in (DRIVERS[driver] if program is None else ()):
             # the loop may run queued callbacks before the next driver operation
             while loop.queue and ch.choose(2, "run-queued-callback-first") == 0:
                 loop.run_one()
@@ -229,12 +240,17 @@ def run(ch, driver, waker_capacity=2):
     finally:
         sched.cleanup()
         tpa.threading, tpa.select, tpa.socket = saved
+        box["closed_flag"] = getattr(st, "_closed", None)
         if st is not None:
             tpa._selector_loops.discard(st)
+            st._closed = True
+        for x in [x for x in tpa._selector_loops if x not in box["pre"]] + [x for x in (box.get("st"),) if x is not None]:
+            tpa._selector_loops.discard(x)          # instance of an abandoned execution
+            x._closed = True                        # its finalizers (async generator, atexit) must not run the shims again
     result.update({"problems": problems, "trace": trace, "max_inflight": state["max_inflight"], "selects": state["selects"],
                    "dispatched": {f.name: f.dispatched for f in fds.values()},
                    "thread_errors": [(t.name, repr(t.exc)[:100]) for t in sched.threads if t.exc is not None],
-                   "closed_flag": getattr(st, "_closed", None)})
+                   "closed_flag": box.get("closed_flag")})
     return result
 
 
@@ -260,25 +276,74 @@ def judge(driver, o):
 class C40(Check):
     id = "C40"
     level = "model_checking"
-    rule = ("9 loop-thread driver programs (add/remove reader and writer, readiness before/after registration, repeated "
+    rule = ("PRIMARY: 10 loop-thread driver programs (add/remove reader and writer, readiness before/after registration, repeated "
             "readiness, fd closed after removal, immediate close, close twice) on the real SelectorThread with shim "
             "threading.Condition/Thread, select.select and socketpair (waker capacity 2, so BlockingIOError is reachable); "
             "scheduling points at every condition acquire/release/wait, thread start/join, waker send/recv, select "
             "enter/exit, call_soon_threadsafe, readiness events and after each loop callback; the loop thread may also "
             "run queued callbacks before each driver operation; every interleaving with at most P preemptions/deviations; "
-            "state = one schedule; non-trivial = schedules with >= 1 preemption")
+            "state = one schedule; non-trivial = schedules with >= 1 preemption.  SECONDARY: models/SelectorThread.tla (one "
+            "action per stretch of code between two synchronisation operations; loop thread doing <= 3 (thorough 4) "
+            "operations on one fd in any order, callbacks and close() at any time) is checked by TLC for every "
+            "schedule - invariants (start-select assertion, no crash of the selector thread, one outstanding result, "
+            "closed => thread finished) and liveness under weak fairness (readiness of a registered fd is eventually "
+            "dispatched, close() completes) - and bound to the code both ways: every edge of TLC's reachable state "
+            "graph is replayed on the real code under the scheduler with the abstract state compared after every "
+            "step, and every schedule explored on the one-fd drivers (<= 2 / 3 preemptions) is simulated in the graph")
     claim = ("On every explored schedule at most one select() is in progress, callbacks run only on the loop thread, every "
              "readiness of a registered fd is dispatched before the system goes quiescent, there is no deadlock or "
              "livelock, no exception in either thread, and close() returns with the selector thread finished.")
-    technique = "preemption-bounded exhaustive thread-schedule exploration (CHESS style) of the real code under a controlled scheduler"
+    technique = ("preemption-bounded exhaustive thread-schedule exploration (CHESS style) of the real code under a controlled "
+                 "scheduler; plus explicit-state model checking (TLC) of a TLA+ model with two-way trace conformance against the code")
     assumptions = ["scheduling points are the synchronisation operations; the few unsynchronised attribute accesses are atomic under the GIL",
                    "the kernel is replaced by shim select/socketpair whose readiness the harness decides"]
 
+    MODEL_MAXOPS = {"quick": 3, "thorough": 4}
+
     def partitions(self, tier):
         bounds = (3,) if tier == "quick" else (5,)
-        return [(d, b) for d in DRIVERS for b in bounds]
+        parts = [(d, b) for d in DRIVERS for b in bounds]
+        # secondary: TLA+ model (TLC) + conformance in both directions; the graph is built here, in the parent,
+        # and inherited by the forked workers
+        from checks import c40_model
+        try:
+            c40_model.load_graph(self.MODEL_MAXOPS[tier])
+        except Exception:
+            pass                      # reported by the "tlc" partition
+        parts.append(("model:tlc", 0))
+        parts += [("model:edges", i) for i in range(32)]
+        ops_needed = {"re-add": 4}
+        parts += [("model:sim", d) for d in c40_model.MODEL_DRIVERS
+                  if ops_needed.get(d, 3) <= self.MODEL_MAXOPS[tier]]
+        return parts
+
+    def run_model_partition(self, part, tier, st):
+        from checks import c40_model
+        try:
+            g = c40_model.load_graph(self.MODEL_MAXOPS[tier])
+        except Exception as e:
+            if part[0] == "model:tlc":
+                st.error("TLC could not be run on models/SelectorThread.tla: %r" % (e,))
+            return
+        if part[0] == "model:tlc":
+            st.ev()
+            st.setmax("model_states", len(g.states))
+            st.sample({"tlc": {k: v for k, v in g.tlc.items() if k != "tail"}, "model": "models/SelectorThread.tla"})
+            if not g.tlc["ok"]:
+                st.violation("model:tlc-reports-an-error", "TLC did not finish with 'No error has been found': ...%s"
+                             % g.tlc["tail"][-700:], {"kind": "tlc"})
+            elif not g.states or g.init is None:
+                st.error("TLC state graph could not be parsed")
+        elif part[0] == "model:edges":
+            if g.tlc["ok"] and g.states:
+                c40_model.run_edges(g, part[1], 32, st)
+        else:
+            if g.tlc["ok"] and g.states:
+                c40_model.run_simulation(g, part[1], 2 if tier == "quick" else 3, st)
 
     def run_partition(self, part, tier, st):
+        if str(part[0]).startswith("model:"):
+            return self.run_model_partition(part, tier, st)
         driver, bound = part
 
         def on_exec(ch, o):
@@ -301,6 +366,12 @@ class C40(Check):
             st.sample({"driver": driver, "program": DRIVERS[driver], "schedules_explored": n, "default_schedule_dispatched": o["dispatched"]})
 
     def replay(self, case):
+        if case.get("kind") in ("model-path", "model-sim"):
+            from checks import c40_model
+            return c40_model.replay(case)
+        if case.get("kind") == "tlc":
+            from checks import c40_model
+            return c40_model.load_graph(3).tlc["tail"]
         o = run(devex.Chooser(case["choices"]), case["driver"])
         return "%r\nverdict %r" % (o, judge(case["driver"], o))
 
